@@ -5,6 +5,7 @@ use super::{
     },
     error::Error,
     find_crlf,
+    parse_unsigned,
     CRLF,
 };
 use rhymessage::{
@@ -29,9 +30,9 @@ fn parse_status_line(status_line: &str) -> Result<(usize, &str), Error> {
         status_line_at_status_code.find(' ').ok_or_else(|| {
             Error::StatusLineNoStatusCodeDelimiter(status_line.into())
         })?;
-    let status_code = status_line_at_status_code[..status_code_delimiter]
-        .parse::<usize>()
-        .map_err(Error::InvalidStatusCode)
+    let status_code =
+        parse_unsigned(&status_line_at_status_code[..status_code_delimiter], 10)
+            .map_err(Error::InvalidStatusCode)
         .and_then(|status_code| match status_code {
             status_code if status_code < 1000 => Ok(status_code),
             status_code => Err(Error::StatusCodeOutOfRange(status_code)),
@@ -484,8 +485,7 @@ impl Response {
                 if let Some(content_length) =
                     self.headers.header_value("Content-Length")
                 {
-                    let content_length = content_length
-                        .parse::<usize>()
+                    let content_length = parse_unsigned(&content_length, 10)
                         .map_err(Error::InvalidContentLength)?;
                     self.body.reserve(content_length);
                     Ok((
